@@ -84,6 +84,8 @@ pub const L6A: Lbl = Lbl::Six([0x0A, 0x1B, 0x2C, 0x3D, 0x4E, 0x5F]);
 pub const L6B: Lbl = Lbl::Six([0xF1, 0xE2, 0xD3, 0xC4, 0xB5, 0xA6]);
 pub const L3A: Lbl = Lbl::Three([0x31, 0x32, 0x33]);
 pub const L3B: Lbl = Lbl::Three([0x0A, 0x1B, 0x2C]); // shares a prefix with L6A on purpose
+/// shares its first three bytes with L6A (two addresses of one vendor): equal-prefix comparisons must not confuse them
+pub const L6P: Lbl = Lbl::Six([0x0A, 0x1B, 0x2C, 0x99, 0x88, 0x77]);
 pub const L6Z: Lbl = Lbl::Six([0; 6]);
 /// the all-zero 3-byte label is a VALID label (only the 6-byte zero label is reserved)
 pub const L3Z: Lbl = Lbl::Three([0; 3]);
